@@ -4,7 +4,7 @@
 From Coq Require Import List NArith ZArith Bool Lia Arith.
 From Coq Require Import Strings.Byte.
 From Falco Require Import Base.Res Base.Bytes Base.Utf8 Proofs.Utf8Proofs Gen.Tokens Model.Lex Model.Pump
-  Proofs.LexProgress Proofs.C20Lex Proofs.C20Chain.
+  Proofs.LexProgress Proofs.C20Classes Proofs.C20Lex Proofs.C20Chain.
 From Falco Require Model.Escape Proofs.EscapeProofs Gen.TokenTypes Model.ParseBase Model.ParseLit Model.Ast Model.Yield
   Model.ParseDecl Model.LexParse Proofs.ParsePratt Proofs.ParseProgram4 Proofs.ParseProgram5.
 Import ListNotations.
@@ -136,7 +136,7 @@ Lemma qrunes_body s : EP.text_ok s -> forallb body_ok (qrunes s) = true.
 Proof.
   intros H. destruct (text_runes s H) as (Hv & _ & Hz). unfold qrunes.
   pose proof (EP.qrunes_ok (dec_all s) Hv Hz) as Hq. apply forallb_forall. intros q Hin.
-  rewrite forallb_forall in Hq. specialize (Hq q Hin). unfold EP.qok in Hq. unfold body_ok, in_string.
+  rewrite forallb_forall in Hq. specialize (Hq q Hin). unfold EP.qok in Hq. unfold body_ok; cls.
   repeat (apply andb_true_iff in Hq; destruct Hq as [Hq ?]). rewrite Hq. cbn [andb]. 
   apply andb_true_iff. split; assumption.
 Qed.
@@ -172,7 +172,7 @@ Proof.
   unfold name_ok in Hn. apply andb_true_iff in Hn. destruct Hn as [Hn _]. apply andb_true_iff in Hn. destruct Hn as [Hid Hf].
   destruct name as [|c nm]; [discriminate|]. cbn [app]. split.
   - apply idchar_ascii. simpl in Hid. apply andb_true_iff in Hid. tauto.
-  - unfold letterb, is_letter, in_rng in Hf. unfold is_space. lia.
+  - unfold letterb in Hf; cls in Hf. cls. lia.
 Qed.
 
 (* one item:  LF  sp sp "k"  :  sp "v"  ,  *)
